@@ -70,6 +70,12 @@ CALLERS = [
     (["pairf"], "def c(a: bool, b: bool) -> Tuple[bool, bool]:\n\treturn pairf(b, a)"),
     (["f"], "def c(x: bool, f_x: bool) -> bool:\n\treturn f(x, f_x)"),
     (["f"], "def c(f_x: bool, x: bool) -> bool:\n\treturn f(x, f_x)"),
+    # caller variables named like the callee's PREFIXED formals, used as actuals for another formal
+    (["both"], "def c(both_y: bool, z: bool) -> bool:\n\treturn both(both_y, z)"),
+    (["both"], "def c(both_x: bool, both_y: bool) -> bool:\n\treturn both(both_y, both_x)"),
+    (["both"], "def c(a: bool, z: bool) -> bool:\n\tboth_y = not a\n\treturn both(both_y, z)"),
+    (["addm"], "def c(addm_y: Qint[2], z: Qint[2]) -> Qint[2]:\n\treturn addm(addm_y, z)"),
+    (["gtb"], "def c(gtb_b: Qint[2], gtb_a: Qint[2]) -> bool:\n\treturn gtb(gtb_b, gtb_a)"),
     (["neg", "both"], "def c(a: bool, b: bool) -> bool:\n\treturn both(neg(a), neg(b))"),
     (["neg", "both"], "def c(a: bool, b: bool) -> bool:\n\tx = neg(a)\n\ty = both(x, b)\n\treturn neg(y)"),
     (["both"], "def c(a: bool, b: bool) -> bool:\n\treturn both(a)"),          # arity mismatch: must raise
